@@ -360,4 +360,328 @@ theorem concat_refines (O : Ops σ) (items : List CArg) (s : σ)
   have h3 := flatMap_congr' items _ _ h2
   simp only [concat, Spec.concat, h1, h3]
 
+
+theorem lookup_erase_self (k : Key) (l : List (Key × PropD)) : lookup k (erase k l) = none := by
+  induction l with
+  | nil => rfl
+  | cons q r ih =>
+    obtain ⟨k', p'⟩ := q
+    by_cases h : k' = k
+    · simp [erase, h, ih]
+    · simp [erase, h, lookup, ih]
+
+theorem lookup_erase_ne (k k' : Key) (l : List (Key × PropD)) (h : k' ≠ k) : lookup k' (erase k l) = lookup k' l := by
+  induction l with
+  | nil => rfl
+  | cons q r ih =>
+    obtain ⟨k'', p''⟩ := q
+    by_cases h1 : k'' = k
+    · subst h1
+      have : ¬ k'' = k' := fun e => h e.symm
+      simp [erase, lookup, this, ih]
+    · by_cases h2 : k'' = k'
+      · subst h2; simp [erase, h1, lookup]
+      · simp [erase, h1, lookup, h2, ih]
+
+/-- what objectDelete does to the store: on success the key is absent and every other key is untouched;
+    on failure nothing changes -/
+theorem objectDelete_effect (k : Key) (o : Obj) :
+    (∃ o', objectDelete k false o = .ok true o' ∧ lookup k o'.props = none ∧
+        (∀ k', k' ≠ k → lookup k' o'.props = lookup k' o.props)) ∨
+    (objectDelete k false o = .ok false o ∧ ∃ p, lookup k o.props = some p ∧ p.c = false) := by
+  unfold objectDelete
+  cases hl : lookup k o.props with
+  | none => exact Or.inl ⟨o, rfl, hl, fun _ _ => rfl⟩
+  | some p =>
+    cases hc : p.c with
+    | true =>
+      refine Or.inl ⟨{ o with props := erase k o.props }, by simp [hc], lookup_erase_self k _, fun k' h => lookup_erase_ne k k' _ h⟩
+    | false => exact Or.inr ⟨by simp [reject, hc], p, rfl, hc⟩
+
+/-- "shrinking length deletes the elements beyond it": when the shrink loop of arrayDefineOwnProperty runs to
+    completion, no element with index in [newLength, newLength + cnt) is left and no other key is touched. -/
+theorem shrinkLoop_deletes (E : Env) (newLength : Nat) (d : Desc) (nw throw : Bool) (cnt : Nat) (o o' : Obj)
+    (h : shrinkLoop E newLength d nw throw cnt o = .ok none o') :
+    (∀ n, newLength ≤ n → n < newLength + cnt → lookup (.idx n) o'.props = none) ∧
+    (∀ k, (∀ n, newLength ≤ n → n < newLength + cnt → k ≠ .idx n) → lookup k o'.props = lookup k o.props) := by
+  induction cnt generalizing o with
+  | zero =>
+    simp only [shrinkLoop, pure, M.pure] at h
+    cases h
+    exact ⟨fun n h1 h2 => by omega, fun _ _ => rfl⟩
+  | succ c ih =>
+    simp only [shrinkLoop, bind, M.bind] at h
+    rcases objectDelete_effect (.idx (newLength + c)) o with ⟨o1, h1, hnone, hother⟩ | ⟨h1, _⟩
+    · rw [h1] at h
+      simp only [Bool.not_true, Bool.false_eq_true, if_false] at h
+      obtain ⟨ihA, ihB⟩ := ih o1 h
+      constructor
+      · intro n hn1 hn2
+        by_cases hn : n = newLength + c
+        · subst hn
+          rw [ihB (.idx (newLength + c)) (fun m hm1 hm2 heq => by injection heq; omega)]
+          exact hnone
+        · exact ihA n hn1 (by omega)
+      · intro k hk
+        rw [ihB k (fun n hn1 hn2 => hk n hn1 (by omega))]
+        exact hother k (hk (newLength + c) (by omega) (by omega))
+    · rw [h1] at h
+      simp only [Bool.not_false, if_true] at h
+      -- the failure branch never returns `none`
+      exfalso
+      simp only [M.bind] at h
+      split at h
+      · cases throw <;> simp [reject, M.pure, pure] at h
+      · cases h
+
+/-- the shrink loop of arrayDefineOwnProperty is §15.4.5.1 step 3.l -/
+theorem shrinkLoop_refines (E : Env) (newLength : Nat) (d : Desc) (nw throw : Bool) (cnt : Nat) :
+    shrinkLoop E newLength d nw throw cnt = Spec.truncateLoop E newLength d nw throw cnt := by
+  induction cnt with
+  | zero => rfl
+  | succ c ih =>
+    funext o
+    simp only [shrinkLoop, Spec.truncateLoop, objectDelete_refines, ih, bind, M.bind]
+    cases Spec.delete (.idx (newLength + c)) false o with
+    | err e s => rfl
+    | ok a s =>
+      cases a with
+      | true => simp
+      | false =>
+        simp only [Bool.not_false, if_true]
+        have hd : ∀ d' : Desc, d'.v.isSome = true → objectDefineOwnProperty E .length d' false = Spec.defineOwnDefault E .length d' false :=
+          fun d' h => funext fun s' => objectDefineOwnProperty_refines E .length d' false s' (Or.inl h)
+        cases nw <;> simp only [Bool.not_false, Bool.not_true, if_true, if_false, Bool.false_eq_true] <;>
+          rw [hd _ rfl] <;> simp only [M.bind] <;>
+          (cases Spec.defineOwnDefault E .length _ false s <;> cases throw <;> simp [reject, M.throw, pure, M.pure])
+
+
+
+
+
+/-- reduce: model = spec unless the receiver is non-empty, has no present element and no initialValue is given -/
+theorem reduce_refines (O : Ops σ) (c : Bool) (args : List Val) (s : σ)
+    (h : args.length > 0 ∨ O.len s = 0 ∨ ∃ k, searchUp (O.has s) 0 (O.len s) = some k) :
+    reduce O c args s = Spec.reduce O c args s := by
+  unfold reduce Spec.reduce
+  cases c with
+  | false => rfl
+  | true =>
+    simp only [Bool.not_true, Bool.false_eq_true, if_false]
+    by_cases ha : args.length > 0
+    · have ha' : ¬ args.length = 0 := by omega
+      simp [ha, ha']
+    · have ha' : args.length = 0 := by omega
+      by_cases hl : O.len s = 0
+      · simp [ha, ha', hl]
+      · rcases h with h | h | ⟨k, hk⟩
+        · exact absurd h ha
+        · exact absurd h hl
+        · have hl' : O.len s > 0 := by omega
+          simp [ha, ha', hl, hl', hk]
+
+/-- reduceRight: the model is the specification run with a callback that receives the index as the
+    property-key string (`reduceRight_index_string`), unless no element is present (`reduce_no_element`) -/
+def keyArg : List Val → List Val
+  | [a, v, .int k, o] => [a, v, .str (dec k.toNat), o]
+  | l => l
+
+theorem reduceRight_characterised (O : Ops σ) (c : Bool) (args : List Val) (s : σ)
+    (h : args.length > 0 ∨ O.len s = 0 ∨ ∃ k, searchDown (O.has s) (O.len s) = some k) :
+    reduceRight O c args s = Spec.reduceRight { O with call := fun as => O.call (keyArg as) } c args s := by
+  unfold reduceRight Spec.reduceRight
+  cases c with
+  | false => rfl
+  | true =>
+    simp only [Bool.not_true, Bool.false_eq_true, if_false, keyArg, Int.toNat_natCast]
+    by_cases ha : args.length > 0
+    · have ha' : ¬ args.length = 0 := by omega
+      simp [ha, ha']
+    · have ha' : args.length = 0 := by omega
+      by_cases hl : O.len s = 0
+      · simp [ha, ha', hl]
+      · rcases h with h | h | ⟨k, hk⟩
+        · exact absurd h ha
+        · exact absurd h hl
+        · have hl' : O.len s > 0 := by omega
+          simp [ha, ha', hl, hl', hk]
+
+
+
+/-- what otto does to a result array: every hole becomes an own property `undefined` -/
+def fillHoles (es : List (Option Val)) : List (Option Val) := es.map fun e => some (e.getD .undef)
+
+def fillRet : Ret → Ret
+  | .arr es => .arr (fillHoles es)
+  | r => r
+
+def Res.mapVal {α β : Type} (f : α → β) : Res σ α → Res σ β
+  | .ok a s => .ok (f a) s
+  | .err e s => .err e s
+
+theorem fillHoles_snoc (a : List (Option Val)) (e : Option Val) :
+    fillHoles (a ++ [e]) = fillHoles a ++ [some (e.getD .undef)] := by
+  simp [fillHoles]
+
+def modelMapBody (O : Ops σ) : Nat → List (Option Val) → M σ (List (Option Val)) :=
+  fun index values => fun s' =>
+    if O.has s' index then
+      (do let r ← O.call [O.get s' index, .int index, .recv]; pure (values ++ [some r])) s'
+    else .ok (values ++ [some Val.undef]) s'
+
+def specMapBody (O : Ops σ) : Nat → List (Option Val) → M σ (List (Option Val)) :=
+  fun k a => fun s' =>
+    if O.has s' k then
+      (do let mappedValue ← O.call [O.get s' k, .int k, .recv]; pure (a ++ [some mappedValue])) s'
+    else .ok (a ++ [none]) s'
+
+theorem map_loop (O : Ops σ) (n lo : Nat) (a : List (Option Val)) (s : σ) :
+    foldUp (modelMapBody O) lo n (fillHoles a) s = Res.mapVal fillHoles (foldUp (specMapBody O) lo n a s) := by
+  induction n generalizing lo a s with
+  | zero => rfl
+  | succ n ih =>
+    simp only [foldUp, bind, M.bind]
+    by_cases hh : O.has s lo = true
+    · simp only [modelMapBody, specMapBody, hh, if_true, bind, M.bind]
+      cases O.call [O.get s lo, .int lo, .recv] s with
+      | err e s' => rfl
+      | ok r s' =>
+        simp only [pure, M.pure]
+        have := ih (lo + 1) (a ++ [some r]) s'
+        rw [fillHoles_snoc] at this
+        exact this
+    · simp only [modelMapBody, specMapBody, hh, if_false, Bool.false_eq_true]
+      have := ih (lo + 1) (a ++ [none]) s
+      rw [fillHoles_snoc] at this
+      exact this
+
+/-- map: otto's result is exactly the specified result with its holes filled by `undefined`
+    (`hole_to_undefined`); same callback invocations, same final state, same errors -/
+theorem map_characterised (O : Ops σ) (c : Bool) (s : σ) :
+    map O c s = Res.mapVal fillRet (Spec.map O c s) := by
+  cases c with
+  | false => rfl
+  | true =>
+    show (foldUp (modelMapBody O) 0 (O.len s) [] >>= fun values => pure (Ret.arr values)) s
+      = Res.mapVal fillRet ((foldUp (specMapBody O) 0 (O.len s) [] >>= fun a => pure (Ret.arr a)) s)
+    have := map_loop O (O.len s) 0 [] s
+    simp only [fillHoles, List.map_nil] at this
+    simp only [bind, M.bind, this]
+    cases foldUp (specMapBody O) 0 (O.len s) [] s with
+    | ok a s' => simp [Res.mapVal, pure, M.pure, fillRet, fillHoles]
+    | err e s' => rfl
+
+/-- hence model = spec whenever the specified result has no hole -/
+theorem map_refines (O : Ops σ) (c : Bool) (s : σ)
+    (h : ∀ es s', Spec.map O c s = .ok (.arr es) s' → ∀ e ∈ es, e ≠ none) :
+    map O c s = Spec.map O c s := by
+  rw [map_characterised]
+  cases hs : Spec.map O c s with
+  | err e s' => rfl
+  | ok r s' =>
+    cases r with
+    | val v => rfl
+    | arr es =>
+      have := h es s' hs
+      simp only [Res.mapVal, fillRet, fillHoles]
+      congr 2
+      conv => rhs; rw [← List.map_id es]
+      apply List.map_congr_left
+      intro e he
+      cases e with
+      | none => exact absurd rfl (this none he)
+      | some x => rfl
+
+
+/-! ## Witnesses: each deviation region is inhabited (kernel-checked by `decide`) -/
+
+/-- a small array-like used by the witnesses and non-vacuity examples -/
+structure W where
+  len : Nat
+  elems : List (Option Val)
+  log : List (List Val) := []
+  putOk : Bool := true
+deriving DecidableEq
+
+def wOps : Ops W where
+  len := fun s => s.len
+  has := fun s k => (s.elems.getD k none).isSome
+  get := fun s k => (s.elems.getD k none).getD .undef
+  put := fun k v s => if s.putOk then .ok () { s with elems := s.elems.set k (some v) } else .err .type s
+  del := fun k s => .ok () { s with elems := s.elems.set k none }
+  putLen := fun _ s => .ok () s
+  call := fun args s => .ok .undef { s with log := args :: s.log }
+  isArr := fun _ => true
+
+def E0 : Env := { pn := fun _ => .nan, ts := fun _ => [] }
+
+def retOf {σ : Type} : Res σ Ret → Option Ret
+  | .ok r _ => some r
+  | .err _ _ => none
+def stateOf {σ α : Type} : Res σ α → σ
+  | .ok _ s => s
+  | .err _ s => s
+def isErr {σ α : Type} : Res σ α → Bool
+  | .ok _ _ => false
+  | .err _ _ => true
+
+/-- index_noncanonical: "01" -/
+example : stringToArrayIndexRaw [48, 49] = 1 ∧ Spec.arrayIndex? [48, 49] = none := by decide
+
+/-- hole_to_undefined: [1,,].slice() -/
+example : retOf (slice wOps E0 [] ⟨2, [some (.int 1), none], [], true⟩) = some (.arr [some (.int 1), some .undef])
+    ∧ retOf (Spec.slice wOps E0 [] ⟨2, [some (.int 1), none], [], true⟩) = some (.arr [some (.int 1), none]) := by decide
+
+/-- splice_no_arguments: [1].splice() -/
+example : retOf (splice wOps E0 [] ⟨1, [some (.int 1)], [], true⟩) = some (.arr [some (.int 1)])
+    ∧ retOf (Spec.splice wOps E0 [] ⟨1, [some (.int 1)], [], true⟩) = some (.arr []) := by decide
+
+/-- splice_one_argument: [1].splice(0) -/
+example : retOf (splice wOps E0 [.int 0] ⟨1, [some (.int 1)], [], true⟩) = some (.arr [some (.int 1)])
+    ∧ retOf (Spec.splice wOps E0 [.int 0] ⟨1, [some (.int 1)], [], true⟩) = some (.arr []) := by decide
+
+/-- lastIndexOf_from_length: length 1, a property at index 1, fromIndex 1 -/
+example : retOf (lastIndexOf wOps E0 [.bool true, .int 1] ⟨1, [some .null, some (.bool true)], [], true⟩) = some (.val (.int 1))
+    ∧ retOf (Spec.lastIndexOf wOps E0 [.bool true, .int 1] ⟨1, [some .null, some (.bool true)], [], true⟩) = some (.val (.int (-1))) := by decide
+
+/-- reduce_no_element: [,,].reduce(f) -/
+example : retOf (reduce wOps true [] ⟨2, [none, none], [], true⟩) = some (.val .undef)
+    ∧ isErr (Spec.reduce wOps true [] ⟨2, [none, none], [], true⟩) = true := by decide
+
+/-- reduceRight_index_string: [null].reduceRight(f, 0) logs the index as "0" -/
+example : (stateOf (reduceRight wOps true [.int 0] ⟨1, [some .null], [], true⟩)).log = [[.int 0, .null, .str [48], .recv]]
+    ∧ (stateOf (Spec.reduceRight wOps true [.int 0] ⟨1, [some .null], [], true⟩)).log = [[.int 0, .null, .int 0, .recv]] := by decide
+
+/-- reverse_delete_before_put: [,true].reverse() on a receiver whose [[Put]] throws -/
+example : (stateOf (reverse wOps ⟨2, [none, some (.bool true)], [], false⟩)).elems = [none, none]
+    ∧ (stateOf (Spec.reverse wOps ⟨2, [none, some (.bool true)], [], false⟩)).elems = [none, some (.bool true)] := by decide
+
+/-- length_same_value_not_writable: Object.defineProperty(frozen [x], "length", {value: 1}) -/
+example :
+    let o : Obj := { isArr := true, ext := false, props := [(.length, ⟨.int 1, false, false, false⟩)], proto := [] }
+    isErr (arrayDefineOwnProperty E0 .length { v := some (.int 1) } true o) = true
+      ∧ isErr (Spec.arrayDefineOwn E0 .length { v := some (.int 1) } true o) = false := by decide
+
+
+/-! ## Non-vacuity of the hypotheses -/
+
+example : WFv (.num (.fin true 3 0)) ∧ WFv (.int (-5)) ∧ (5 : Nat) < 2^62 :=
+  ⟨trivial, by simp [WFv, minInt64, maxInt64], by decide⟩
+
+/-- slice_refines applies to a dense receiver with fractional / negative arguments -/
+example : slice wOps E0 [.int (-2), .undef] ⟨3, [some .null, some (.int 7), some (.bool true)], [], true⟩
+    = Spec.slice wOps E0 [.int (-2), .undef] ⟨3, [some .null, some (.int 7), some (.bool true)], [], true⟩ := by
+  apply slice_refines
+  · intro a ha; simp at ha; rcases ha with h | h <;> subst h <;> simp [WFv, minInt64, maxInt64]
+  · decide
+  · intro j _ h2
+    have : j < 3 := by
+      have : Spec.relIndex (if argAt [Val.int (-2), Val.undef] 1 = Val.undef then Spec.IntInf.fin (3 : Nat) else Spec.toInteger E0 (argAt [Val.int (-2), Val.undef] 1)) 3 = 3 := by decide
+      simp only [wOps] at h2
+      omega
+    match j, this with
+    | 0, _ => decide
+    | 1, _ => decide
+    | 2, _ => decide
+
 end OttoVerif.C08.Thm
